@@ -161,6 +161,32 @@ example : trace (buildMiddleware ⟨"", 0, true, none, [1, 2]⟩) =
 example : runHist [] [.new 0 [], .reg 0 7, .reg 0 8, .new 0 [.baseURL "x"], .new 1 []] =
     [.panic (.unregistered 0), .registered, .panic (.duplicate 0), .made 7 ⟨"x", 0, false, none, []⟩, .panic (.unregistered 1)] := by decide
 
+/-! ## composition: two batches of options / two lists of middlewares are one -/
+
+/-- chains compose: the chain of the middleware list `a ++ b` is the chain of `a` wrapped around the chain of `b`
+    (`Use(a₁)…Use(aₙ)` followed by `Use(b₁)…Use(bₘ)` is one list) -/
+theorem C19_chain_compose (a b : List Mw) (t : RT) :
+    wrapAll (a ++ b).reverse t = wrapAll a.reverse (wrapAll b.reverse t) := by
+  simp [wrapAll, List.reverse_append, List.foldl_append]
+
+/-- options given in two batches are the options given at once: every field holds the last value of the whole sequence and
+    the middleware list is the first batch's followed by the second's -/
+theorem C19_options_compose (o1 o2 : List Opt) :
+    newWith (o1 ++ o2) = applyAll (newWith o1) o2 ∧
+    (newWith (o1 ++ o2)).mws = (newWith o1).mws ++ (newWith o2).mws := by
+  constructor
+  · simp [newWith, applyAll, List.foldl_append]
+  · rw [newWith_eq, newWith_eq, newWith_eq, applyAll_mws, applyAll_mws, applyAll_mws]
+    simp [zeroConf, List.filterMap_append]
+
+/-- one round trip through the composed chain enters all of `a`, then all of `b`, then what is inside, and leaves in
+    reverse -/
+theorem C19_trace_compose (a b : List Mw) (t : RT) :
+    trace (wrapAll (a ++ b).reverse t) =
+      a.map (fun m => Event.enter (.mw m)) ++ trace (wrapAll b.reverse t) ++ a.reverse.map (fun m => Event.exit (.mw m)) := by
+  rw [C19_chain_compose, trace_wrapAll]
+  simp
+
 /-! ## clients keep the RestConf they were built from
 
 `NewRest` hands the constructor its RestConf BY VALUE and the generated client keeps it (`conf: &conf`). The middleware
